@@ -131,7 +131,7 @@ func (bA *BitArray) Or(o *BitArray) *BitArray {
 	bA.mtx.Lock()
 	defer bA.mtx.Unlock()
 	c := bA.copyBits(MaxInt(int(bA.Bits), int(o.Bits)))
-	for i := 0; i < len(c.Elems); i++ {
+	for i := 0; i < len(c.Elems) && i < len(o.Elems); i++ {
 		c.Elems[i] |= o.Elems[i]
 	}
 	return c
@@ -178,7 +178,7 @@ func (bA *BitArray) Sub(o *BitArray) *BitArray {
 	if bA.Bits > o.Bits {
 		c := bA.copy()
 		for i := 0; i < len(o.Elems)-1; i++ {
-			c.Elems[i] &= ^c.Elems[i]
+			c.Elems[i] &= ^o.Elems[i]
 		}
 		i := len(o.Elems) - 1
 		if i >= 0 {
@@ -351,6 +351,14 @@ func (bA *BitArray) ToProto() *kprotobits.BitArray {
 func (bA *BitArray) FromProto(protoBitArray *kprotobits.BitArray) {
 	if protoBitArray == nil {
 		bA = nil
+		return
+	}
+
+	// The number of words must be the one the number of bits asks for: every operation indexes Elems by Bits.
+	// An inconsistent array (only a peer can produce one) is taken over as an empty one.
+	if protoBitArray.Bits < 0 || uint64(len(protoBitArray.Elems)) != (uint64(protoBitArray.Bits)+63)/64 {
+		bA.Bits = 0
+		bA.Elems = nil
 		return
 	}
 
